@@ -219,6 +219,7 @@ static void gen_print_orc (const ProgSpec *ps, VhBuf *b, const GenPrintStyle *st
         break;
       case VK_ACC: vh_buf_printf (b, ".accumulator%s%d%s%s", sp, v->size, sp, v->name); break;
       case VK_CONST:
+        if (st->inline_consts) continue;          /* written as literal operands below */
         vh_buf_printf (b, ".const%s%d%s%s%s", sp, v->size, sp, v->name, sp);
         gen_print_value (b, v, st->hex);
         break;
@@ -241,7 +242,12 @@ static void gen_print_orc (const ProgSpec *ps, VhBuf *b, const GenPrintStyle *st
       vh_buf_printf (b, "%s%s", first ? "" : (st->spaces_after_comma ? ", " : ","), in->dest[k] >= 0 ? ps->vars[in->dest[k]].name : "?"); first = 0;
     }
     for (k = 0; k < 4; k++) if (op->ssz[k]) {
-      vh_buf_printf (b, "%s%s", first ? "" : (st->spaces_after_comma ? ", " : ","), in->src[k] >= 0 ? ps->vars[in->src[k]].name : "?"); first = 0;
+      if (st->inline_consts && in->src[k] >= 0 && ps->vars[in->src[k]].kind == VK_CONST) {
+        vh_buf_printf (b, "%s", first ? "" : (st->spaces_after_comma ? ", " : ","));
+        gen_print_value (b, &ps->vars[in->src[k]], st->hex);
+      } else
+      vh_buf_printf (b, "%s%s", first ? "" : (st->spaces_after_comma ? ", " : ","), in->src[k] >= 0 ? ps->vars[in->src[k]].name : "?");
+      first = 0;
     }
     vh_buf_printf (b, "%s", nl);
   }
